@@ -60,6 +60,7 @@ TrSeq == /\ IsEv("seq")
             THEN LET m == DecodeSeq(e.d, so)
                      ns == EncodeSeqRoot(m, so) IN
                  /\ e.err = "ok" /\ e.r = Jsonable(m)
+                 /\ e.twice = "ok"                                \* a second call on the same stream returns the second copy (C13: one document per call)
                  /\ e.encerr = "ok" /\ e.x = Join(RenderSeq(ns, eo))
                  /\ Len(ns) = 1
                  /\ ~so.escdec => DropEmptyRuns(ns[1]) = Canon(e.d, so)      \* C04 on the observed data (with decoder-side escaping the Map holds escaped text)
